@@ -108,6 +108,34 @@ def rule_notify(P):
                     f = P.fn(fname)
                     r.bad("K3:%s:no-wakeup-after-registration-change" % fname, "%s:%d" % (f.file, f.line), fname,
                           "the backend map reports a changed registration (1) but the sleeping loop is not woken: the kernel wait keeps the old interest set")
+    # timed add from a foreign thread: whenever the new deadline becomes the earliest one the loop must be told (for relative and for absolute
+    # deadlines alike: the internal timer of a common-timeout queue is scheduled with an absolute deadline from whichever thread adds the event)
+    f = P.fn("event_add_nolock_")
+    if not list(f.calls("min_heap_elt_is_top_")):
+        r.brk("event_add_nolock_ no longer calls min_heap_elt_is_top_: the wake-up-on-earlier-deadline clause cannot be located")
+        return r
+    M2 = Machine(P, thread_id=6, globals_={"evthread_id_fn_": 1})
+    M2.EXTERNAL = dict(Machine.EXTERNAL, is_common_timeout=[0], min_heap_elt_is_top_=[0, 1])
+    for absol in (0, 1):
+        for fl in (L["INIT"], L["INIT"] | L["TIMEOUT"]):
+            st = dict({"flags": fl, "res": 0, "events": 0, "count": 10, "active": 5}, **FOREIGN)
+            for o in M2.evaluate("event_add_nolock_", st, {"tv": 7, "tv_is_absolute": absol}):
+                if o["unknown"]:
+                    r.brk(o["unknown"])
+                    return r
+                ch = dict(o["choices"])
+                if ch.get("min_heap_reserve_") == -1:
+                    continue
+                notified = "evthread_notify_base" in o["calls"]
+                top = ch.get("min_heap_elt_is_top_")
+                r.inst(("timed", absol, top, fl, o["calls"]), {"fn": "event_add_nolock_", "absolute_deadline": absol, "new_deadline_is_earliest": top, "flags": hex(fl), "notified": notified})
+                if top != 1 and not (top is None and "min_heap_push_" in o["calls"]):
+                    continue
+                if not notified and nbad < 8:
+                    nbad += 1
+                    r.bad("K3:event_add_nolock_:no-wakeup-for-earlier-deadline", "%s:%d" % (f.file, f.line), f.name,
+                          "added from another thread with %s deadline that becomes the earliest one%s: the sleeping loop is not woken, it keeps waiting for the previous earliest timeout" % (
+                              "an absolute" if absol else "a relative", "" if top == 1 else " (the is-it-the-earliest test is not even made)"))
     # notify protocol
     f = P.fn("evthread_notify_base")
     base = ["var", f.params[0][0], "param"]
